@@ -4,6 +4,7 @@ package main
 // c05.go), message ids from the real deposit event handlers, BTC credit under randomised map iteration.
 
 import (
+	"bytes"
 	"context"
 	"crypto/sha256"
 	"encoding/binary"
@@ -26,6 +27,8 @@ import (
 	"github.com/btcsuite/btcd/chaincfg/chainhash"
 	"github.com/ethereum/go-ethereum/common"
 	"github.com/rs/zerolog"
+	"github.com/rs/zerolog/log"
+	"github.com/ChainSafe/sygma-relayer/chains/evm/executor"
 	"github.com/sygmaprotocol/sygma-core/relayer/message"
 )
 
@@ -84,7 +87,7 @@ func mkBtcTxs(spec string) []btcjson.TxRawResult {
 	return out
 }
 
-// mkBtcResources: ';'-separated `idByteHex:addrIdx:feeSat`
+// mkBtcResources: ';'-separated `idHex:addrIdx:feeSat`; idHex = up to 32 bytes, right-padded with zeros like `copy` does
 func mkBtcResources(spec string) map[[32]byte]btcConfig.Resource {
 	rs := map[[32]byte]btcConfig.Resource{}
 	for _, r := range items(spec, ";") {
@@ -108,7 +111,7 @@ func renderBtcDeposits(dd map[uint8][]*message.Message) string {
 		for _, m := range dd[uint8(d)] {
 			td := m.Data.(transfer.TransferMessageData)
 			amt := new(big.Int).SetBytes(td.Payload[0].([]byte))
-			ms = append(ms, hex.EncodeToString(td.ResourceId[:1])+"."+amt.String()+"."+m.ID)
+			ms = append(ms, hex.EncodeToString(td.ResourceId[:])+"."+amt.String()+"."+m.ID)
 		}
 		out = append(out, itoa(d)+"="+strings.Join(ms, ","))
 	}
@@ -293,7 +296,111 @@ func init() {
 	// evmsession <cap> <tg> <msgId> <props> : the session ids under which the EVM executor signs the batches of a delivery
 	// (same op as C14.exec; here it backs "signing session ids are identical on all relayers")
 	ops["C19.evmsession"] = func(a []string) string { return ops["C14.exec"](a) }
+	// evmsession2 <cap> <tg> <msgId> <props> : Execute the SAME delivery twice on ONE Executor object (a re-delivered or
+	// retried message) => sessions of round 1 '#' sessions of round 2. Session ids are a function of the delivery alone.
+	ops["C19.evmsession2"] = func(a []string) string {
+		ps, st := mkProps(a[3], a[2])
+		serial := &sync.Mutex{}
+		br := &fakeBridge{status: st, serial: serial}
+		e := executor.NewExecutor(nil, nil, nil, br, &failFetcher{serial}, &sync.RWMutex{}, u64(a[0]), u64(a[1]))
+		rounds := []string{}
+		for r := 0; r < 2; r++ {
+			br.mu.Lock()
+			br.events = nil
+			br.mu.Unlock()
+			var buf bytes.Buffer
+			old, oldLvl := log.Logger, zerolog.GlobalLevel()
+			log.Logger = zerolog.New(&lockedWriter{w: &buf, br: br})
+			zerolog.SetGlobalLevel(zerolog.InfoLevel)
+			_ = e.Execute(ps)
+			log.Logger = old
+			zerolog.SetGlobalLevel(oldLvl)
+			out := []string{}
+			for i := 0; i < len(br.events); i++ {
+				if strings.HasPrefix(br.events[i], "H:") {
+					sid := "?"
+					if i+1 < len(br.events) && strings.HasPrefix(br.events[i+1], "S:") {
+						sid = br.events[i+1][2:]
+					}
+					out = append(out, sid+"="+br.events[i][2:])
+				}
+			}
+			sort.Strings(out)
+			if len(br.events) == 0 && anyStatus(st, "x") {
+				rounds = append(rounds, "err")
+			} else {
+				rounds = append(rounds, joinOr(out, ";"))
+			}
+		}
+		return strings.Join(rounds, "#")
+	}
+	// evminterleave <domain> <s1> <e1> <s2> <e2> <order> <deposits>
+	//   ONE DepositEventHandler object serves the scan (ProcessDeposits(s1,e1), goroutine A) and a retry-by-height
+	//   (ProcessDeposits(s2,e2), goroutine B) at the same time, as app.Run wires it. The node fake blocks inside
+	//   FetchDeposits: A enters, then B enters, then they are released in <order> (AB | BA), each running to completion
+	//   before the other is released — fully deterministic.  =>  A:<groups>#B:<groups>
+	ops["C19.evminterleave"] = func(a []string) string {
+		ds := []*events.Deposit{}
+		for i, d := range items(a[6], ",") {
+			ds = append(ds, &events.Deposit{DepositNonce: uint64(i), DestinationDomainID: uint8(u64(d))})
+		}
+		entered := make(chan string, 2)
+		release := map[string]chan struct{}{}
+		var mu sync.Mutex
+		fl := &c19BlockingListener{ds: ds, entered: entered, release: release, mu: &mu}
+		eh := eventHandlers.NewDepositEventHandler(fl, c19DepositHandler{}, common.Address{}, uint8(u64(a[0])), make(chan []*message.Message, 1))
+		res := map[string]string{}
+		done := make(chan string, 2)
+		run := func(tag string, s, e *big.Int) {
+			mu.Lock()
+			release[tag] = make(chan struct{})
+			mu.Unlock()
+			go func() {
+				dd, err := eh.ProcessDeposits(s, e)
+				mu.Lock()
+				if err != nil {
+					res[tag] = "err"
+				} else {
+					res[tag] = renderEvmDeposits(dd)
+				}
+				mu.Unlock()
+				done <- tag
+			}()
+			<-entered // the call is now blocked inside FetchDeposits
+		}
+		run("A", bigArg(a[1]), bigArg(a[2]))
+		run("B", bigArg(a[3]), bigArg(a[4]))
+		for _, tag := range strings.Split(a[5], "") {
+			mu.Lock()
+			ch := release[tag]
+			mu.Unlock()
+			close(ch)
+			<-done
+		}
+		return "A:" + res["A"] + "#B:" + res["B"]
+	}
 	gens["C19"] = genC19
+}
+
+// c19BlockingListener: FetchDeposits announces itself and waits to be released; the first call to enter is A's.
+type c19BlockingListener struct {
+	c05EvmListener
+	ds      []*events.Deposit
+	entered chan string
+	release map[string]chan struct{}
+	mu      *sync.Mutex
+	count   int
+}
+
+func (l *c19BlockingListener) FetchDeposits(ctx context.Context, a common.Address, s, e *big.Int) ([]*events.Deposit, error) {
+	l.mu.Lock()
+	tag := []string{"A", "B", "?"}[min(l.count, 2)] // A is started first and has entered before B is started
+	l.count++
+	ch := l.release[tag]
+	l.mu.Unlock()
+	l.entered <- tag
+	<-ch
+	return l.ds, nil
 }
 
 func setStr(m map[string]bool) string {
@@ -347,6 +454,84 @@ func genC19(g *G) {
 			xs = append(xs, []string{"n", "0", "40", "41", "100"}[g.Intn(5)]+":"+st)
 		}
 		g.Emit("evmsession", "100", "60", []string{"1-2-100-104", "3-1-5-9", "retry-7"}[g.Intn(3)], joinOr(xs, ";"))
+	}
+	// the same delivery twice on one Executor object
+	for _, sp := range []string{"n:p", "n:p;n:p;n:p", "100:p;n:p", "n:e;n:p;41:p;n:p", "40:p;n:p;n:p;0:p;0:p"} {
+		g.Emit("evmsession2", "100", "60", "1-2-102-102", sp)
+	}
+	for i := 0; i < g.Count(40, 800); i++ {
+		n := 1 + g.Intn(5)
+		xs := []string{}
+		for j := 0; j < n; j++ {
+			xs = append(xs, []string{"n", "0", "40", "41", "100"}[g.Intn(5)]+":"+g.Pick([]string{"p", "p", "p", "e"}))
+		}
+		g.Emit("evmsession2", "100", "60", []string{"1-2-100-104", "3-1-5-9", "retry-7"}[g.Intn(3)], joinOr(xs, ";"))
+	}
+	// one DepositEventHandler object serving the scan of a range and a retry of a block inside/outside it at the same time
+	for _, order := range []string{"AB", "BA"} {
+		for _, r := range [][4]string{{"100", "104", "102", "102"}, {"100", "104", "100", "100"}, {"100", "104", "104", "104"},
+			{"100", "104", "95", "95"}, {"0", "4", "3", "3"}, {"7", "7", "7", "7"}} {
+			g.Emit("evminterleave", "1", r[0], r[1], r[2], r[3], order, "2,3,2")
+			g.Emit("evminterleave", "1", r[2], r[3], r[0], r[1], order, "2")
+		}
+	}
+	for i := 0; i < g.Count(60, 1000); i++ {
+		s := int64(g.Intn(200))
+		k := int64(1 + g.Intn(6))
+		b := s + int64(g.Intn(int(k)+4)) - 2
+		if b < 0 {
+			b = 0
+		}
+		n := 1 + g.Intn(4)
+		ds := []string{}
+		for j := 0; j < n; j++ {
+			ds = append(ds, itoa(2+g.Intn(3)))
+		}
+		g.Emit("evminterleave", itoa(1+g.Intn(3)), itoa64(s), itoa64(s+k-1), itoa64(b), itoa64(b), g.Pick([]string{"AB", "BA"}), strings.Join(ds, ","))
+	}
+	// BTC credit with realistic 32-byte resource ids: zero-padded ids differing only in late bytes (0x…0300 / 0x…0400),
+	// only in the last byte, only in early bytes, sharing their first 8 / 16 / 31 bytes; every order of the config list
+	mkID := func(pos int, v byte, fill byte) string {
+		b := make([]byte, 32)
+		for i := range b {
+			b[i] = fill
+		}
+		b[pos] = v
+		return hex.EncodeToString(b)
+	}
+	for _, pos := range []int{0, 3, 7, 8, 15, 16, 30, 31} {
+		for _, fill := range []byte{0x00, 0xab} {
+			ida, idb, idc := mkID(pos, 3, fill), mkID(pos, 4, fill), mkID(pos, 0x80, fill)
+			for _, rs := range []string{ida + ":0:100000000;" + idb + ":1:100000000", idb + ":1:100000000;" + ida + ":0:100000000",
+				idc + ":2:100000000;" + idb + ":1:100000000;" + ida + ":0:100000000", idb + ":0:100000000;" + idc + ":1:100000000"} {
+				g.Emit("btccredit", "100", rs, "5", "3~0:2:t,1:3:t,2:4:t,5:1:t")
+				g.Emit("btccredit", "101", rs, "5", "3~1:3:t,2:4:t,5:1:t/2~0:1:t,1:1:t,5:1:t")
+			}
+		}
+	}
+	for i := 0; i < g.Count(150, 3000); i++ {
+		base := g.Bytes(32)
+		if g.Intn(2) == 0 {
+			base = make([]byte, 32)
+		}
+		nr := 2 + g.Intn(2)
+		pos := g.Intn(32)
+		rs := []string{}
+		used := map[byte]bool{}
+		for j := 0; j < nr; j++ {
+			id := append([]byte{}, base...)
+			v := byte(g.Intn(256))
+			for used[v] {
+				v++
+			}
+			used[v] = true
+			id[pos] = v
+			if g.Intn(3) == 0 && pos < 31 {
+				id[31] = byte(g.Intn(256)) // a second difference further right must not matter
+			}
+			rs = append(rs, hex.EncodeToString(id)+":"+itoa(j)+":100000000")
+		}
+		g.Emit("btccredit", itoa(100+g.Intn(5)), strings.Join(rs, ";"), "5", "3~0:2:t,1:3:t,2:4:t,5:1:t")
 	}
 	// BTC credit: small exhaustive scope over which resources a transaction pays and whether the fee suffices
 	orders := []string{"01:0:100000000;02:1:100000000", "02:1:100000000;01:0:100000000", "01:0:100000000;02:1:200000000",
